@@ -1421,6 +1421,37 @@ Record apres (R : arec) : Prop := mkAP {
   ap_type : forall t m, pres (r_type R t m)
 }.
 
+(* fn expression_block's split of the statements (Tc.block_split) *)
+Lemma block_split_snoc ss e sp : block_split (ss ++ [SStatementExpression e sp]) = (ss, Some e).
+Proof.
+  induction ss as [|x ss IH]; [reflexivity|].
+  change ((x :: ss) ++ [SStatementExpression e sp]) with (x :: (ss ++ [SStatementExpression e sp])).
+  cbn [block_split]. rewrite IH. destruct ss; [|destruct x; reflexivity]. destruct x; reflexivity.
+Qed.
+
+Lemma block_split_single_other x :
+  match x with SStatementExpression _ _ => False | _ => True end -> block_split [x] = ([x], None).
+Proof. destruct x; intros H; try reflexivity. destruct H. Qed.
+
+(* either the block ends with an expression statement, or all of it goes through fn statement *)
+Lemma block_split_cases l :
+  (exists ss e sp, l = ss ++ [SStatementExpression e sp] /\ block_split l = (ss, Some e)) \/ block_split l = (l, None).
+Proof.
+  induction l as [|x l IH]; [now right|]. destruct IH as [(ss & e & sp & -> & H)|H].
+  - left. exists (x :: ss), e, sp. split; [reflexivity|]. apply (block_split_snoc (x :: ss)).
+  - destruct l as [|y l].
+    + destruct x; try (right; reflexivity). left. exists [], value, sp. split; reflexivity.
+    + right. assert (E : block_split (x :: y :: l) = let '(i, v) := block_split (y :: l) in (x :: i, v))
+        by (destruct x; reflexivity).
+      rewrite E, H. reflexivity.
+Qed.
+
+Lemma block_split_incl l x : In x (fst (block_split l)) -> In x l.
+Proof.
+  destruct (block_split_cases l) as [(ss & e & sp & -> & H)|H]; rewrite H; cbn [fst]; [|tauto].
+  intros I. apply in_or_app. now left.
+Qed.
+
 Section SyntaxLevel.
   Variable kinds : PositiveMap.t varkind.
   Variable G : grec.
